@@ -109,17 +109,24 @@ def make_dll_atomicity(reg):
                             same_fs = z3.Or(de == dirname(want), de == cache_dir)
                     reg.prove("%s.make_dll.G2_compiler_output_is_private_to_this_call_and_in_the_cache_directory.%s"
                               % (PROP, tag), pc, z3.And(z3.BoolVal(private), same_fs), function=fn,
-                              replay=lambda m=None: _either(replay_two_builders, replay_partial_library_visible),
+                              replay=lambda m=None: _either(replay_two_builders, replay_partial_library_visible,
+                                                            replay_publication_primitive),
                               describe="the compiler writes to a name created by mkstemp/mkdtemp(dir=cache directory) in this call")
                 # G3: every modification of a path that may be the final name is the one rename
                 bad_mod = []
                 for e in ev:
                     if e[0] in ("write", "create", "unlink", "rmtree", "mkdir"):
                         bad_mod.append(e[1] == want)
+                    if e[0] in ("move", "copy"):
+                        # a copy (or a move that may cross file systems) writes the destination piece by piece
+                        bad_mod.append(e[2] == want)
+                        bad_mod.append(e[1] == want)
                     if e[0] == "replace":
                         bad_mod.append(e[1] == want)        # renaming the final name away
                 reg.prove("%s.make_dll.G3_final_name_is_not_written_truncated_or_removed.%s" % (PROP, tag), pc,
-                          z3.Not(z3.Or(*bad_mod)) if bad_mod else z3.BoolVal(True), function=fn, replay=rp)
+                          z3.Not(z3.Or(*bad_mod)) if bad_mod else z3.BoolVal(True), function=fn,
+                          replay=lambda m=None: _either(replay_partial_library_visible, replay_failed_build_keeps_published,
+                                                        replay_publication_primitive))
                 to_final = [e for e in repl if _implied(pc, e[2] == want)]
                 other_repl = [e for e in repl if e not in to_final]
                 reg.prove("%s.make_dll.G3_no_other_rename_targets_the_final_name.%s" % (PROP, tag), pc,
@@ -137,7 +144,8 @@ def make_dll_atomicity(reg):
                         mods = [e[1] == compiled_ok[-1][2] for e in between if e[0] in ("write", "create", "unlink", "rmtree")]
                         untouched = z3.Not(z3.Or(*mods)) if mods else z3.BoolVal(True)
                     reg.prove("%s.make_dll.G2_published_by_one_atomic_rename_of_the_finished_file.%s" % (PROP, tag), pc,
-                              z3.And(z3.BoolVal(ok), src_is_output, untouched), function=fn, replay=rp)
+                              z3.And(z3.BoolVal(ok), src_is_output, untouched), function=fn,
+                              replay=lambda m=None: _either(replay_partial_library_visible, replay_publication_primitive))
                 if rec["raised"] is None:
                     ret = rec["ret"]
                     reg.prove("%s.make_dll.R_returns_the_final_name.%s" % (PROP, tag), pc,
@@ -496,6 +504,119 @@ def replay_two_builders():
                  "real": out, "spec": "the final name holds a complete library as soon as it exists; both builders succeed"}
 
 
+def replay_failed_build_keeps_published():
+    """A is compiling; B publishes the complete library; A's compiler fails.  The published library must stay."""
+    import os
+    import sys
+    import time
+    import shutil
+    import tempfile
+    import threading
+    from sasmodels import kerneldll, core, generate
+    info = core.load_model_info("sphere")
+    src = generate.make_source(info)["dll"]
+    work = tempfile.mkdtemp(prefix="verif_c18f_")
+    old_path, old_cmd = kerneldll.SAS_DLL_PATH, kerneldll.compile_command
+    out = {}
+    script = ("import sys, os, time\nflags = sys.argv[2]\nopen(sys.argv[1], 'wb').write(b'x' * 64)\n"
+              "open(os.path.join(flags, 'started'), 'w').close()\nt0 = time.time()\n"
+              "while not os.path.exists(os.path.join(flags, 'fail')) and time.time() - t0 < 30: time.sleep(0.01)\n"
+              "sys.exit(1)\n")
+    try:
+        d0, d1, flags = (os.path.join(work, n) for n in ("real", "cache", "flags"))
+        for d in (d0, d1, flags):
+            os.makedirs(d)
+        kerneldll.SAS_DLL_PATH = d0
+        real = kerneldll.make_dll(src, info, dtype=generate.F64)
+        spath = os.path.join(work, "cc.py")
+        open(spath, "w").write(script)
+        kerneldll.SAS_DLL_PATH = d1
+        kerneldll.compile_command = lambda source, output: [sys.executable, spath, output, flags]
+        final = kerneldll.dll_path(info.id + "_" + generate.tag_source(src), generate.F64)
+        err = {}
+
+        def builder():
+            try:
+                kerneldll.make_dll(src, info, dtype=generate.F64)
+            except Exception as exc:   # noqa
+                err["exc"] = type(exc).__name__
+        t = threading.Thread(target=builder)
+        t.start()
+        t0 = time.time()
+        while not os.path.exists(os.path.join(flags, "started")) and time.time() - t0 < 30:
+            time.sleep(0.01)
+        # another process publishes the complete library (atomic rename of a private copy)
+        tmp = os.path.join(d1, "other_process.tmp")
+        shutil.copyfile(real, tmp)
+        os.replace(tmp, final)
+        open(os.path.join(flags, "fail"), "w").close()
+        t.join(60)
+        out["builder_raised"] = err.get("exc")
+        out["published_library_still_there"] = os.path.exists(final)
+        out["published_library_intact"] = os.path.exists(final) and os.path.getsize(final) == os.path.getsize(real)
+    finally:
+        kerneldll.SAS_DLL_PATH, kerneldll.compile_command = old_path, old_cmd
+        shutil.rmtree(work, ignore_errors=True)
+    bad = not out.get("published_library_intact")
+    return bad, {"call": "make_dll(<sphere>) whose compiler fails after another process has published the library",
+                 "real": out, "spec": "the failing build raises and leaves the published library in place"}
+
+
+def replay_publication_primitive():
+    """Real make_dll with the temporary directory on another file system (if one is available): which primitive
+    writes the final cache name?  Anything but a rename within the cache directory's file system fills it piece by
+    piece (observed by instrumenting shutil's copy functions and os.replace/os.rename during the call)."""
+    import os
+    import sys
+    import shutil
+    import tempfile
+    from sasmodels import kerneldll, core, generate
+    info = core.load_model_info("sphere")
+    src = generate.make_source(info)["dll"]
+    work = tempfile.mkdtemp(prefix="verif_c18p_")
+    other = None
+    for cand in ("/dev/shm", "/run/shm", "/var/tmp"):
+        try:
+            if os.path.isdir(cand) and os.access(cand, os.W_OK) and os.stat(cand).st_dev != os.stat(work).st_dev:
+                other = tempfile.mkdtemp(prefix="verif_c18p_", dir=cand)
+                break
+        except OSError:
+            pass
+    old_path, old_tmp = kerneldll.SAS_DLL_PATH, tempfile.tempdir
+    saved = (shutil.copyfile, shutil.copy2, shutil.copy, os.replace, os.rename)
+    log = []
+    try:
+        kerneldll.SAS_DLL_PATH = os.path.join(work, "cache")
+        os.makedirs(kerneldll.SAS_DLL_PATH)
+        final = kerneldll.dll_path(info.id + "_" + generate.tag_source(src), generate.F64)
+        if other is not None:
+            tempfile.tempdir = other
+
+        def wrap(name, fn):
+            def f(a, b, *rest, **kw):
+                if os.path.abspath(str(b)) == os.path.abspath(final):
+                    same = os.stat(os.path.dirname(os.path.abspath(str(a)))).st_dev == os.stat(os.path.dirname(final)).st_dev
+                    log.append({"primitive": name, "source": str(a), "same_file_system": bool(same)})
+                return fn(a, b, *rest, **kw)
+            return f
+        shutil.copyfile, shutil.copy2, shutil.copy = (wrap("shutil.copyfile", saved[0]), wrap("shutil.copy2", saved[1]),
+                                                      wrap("shutil.copy", saved[2]))
+        os.replace, os.rename = wrap("os.replace", saved[3]), wrap("os.rename", saved[4])
+        kerneldll.make_dll(src, info, dtype=generate.F64)
+    finally:
+        shutil.copyfile, shutil.copy2, shutil.copy, os.replace, os.rename = saved
+        kerneldll.SAS_DLL_PATH, tempfile.tempdir = old_path, old_tmp
+        shutil.rmtree(work, ignore_errors=True)
+        if other:
+            shutil.rmtree(other, ignore_errors=True)
+    copies = [e for e in log if e["primitive"].startswith("shutil.copy") or not e["same_file_system"]]
+    bad = bool(copies) or not any(e["primitive"] in ("os.replace", "os.rename") and e["same_file_system"] for e in log)
+    if other is None and not copies:
+        return False, {"note": "no second file system available"}
+    return bad, {"call": "make_dll(<sphere>) with TMPDIR on another file system; primitives that wrote the final cache name",
+                 "real": log, "spec": "one rename from a file in the cache directory's own file system"}
+
+
 def scripted_schedules(reg, tier):
     """Bounded stand-in for the schedule / crash-point quantifier: real processes, scripted compiler."""
     where = "sasmodels/kerneldll.py:make_dll"
@@ -513,6 +634,20 @@ def scripted_schedules(reg, tier):
     else:
         reg.passed(oid, function=where, engine="runtime-contract", kind="bounded", backend="cpython",
                    bound="two builders, A's compiler finished, B's half way when A publishes")
+    bad, info = replay_failed_build_keeps_published()
+    oid = "%s.scripted.failed_build_keeps_a_library_published_meanwhile" % PROP
+    if bad:
+        reg.fail(oid, info, function=where, engine="runtime-contract", kind="bounded")
+    else:
+        reg.passed(oid, function=where, engine="runtime-contract", kind="bounded", backend="cpython",
+                   bound="builder A compiling, library published by another process, A's compiler exits 1")
+    bad, info = replay_publication_primitive()
+    oid = "%s.scripted.final_name_is_written_by_a_rename_within_the_cache_file_system" % PROP
+    if bad:
+        reg.fail(oid, info, function=where, engine="runtime-contract", kind="bounded")
+    else:
+        reg.passed(oid, function=where, engine="runtime-contract", kind="bounded", backend="cpython",
+                   bound="TMPDIR on a second file system when available (%s)" % info.get("note", "second file system used"))
     bad, info = replay_killed_compiler()
     oid = "%s.scripted.killed_compiler_is_a_failed_compile" % PROP
     if bad:
